@@ -18,7 +18,7 @@ def run(ctx):
     r = ctx.tlc("MC_Width", "MC_Width.cfg").require_clean()
     res.add_tlc(r)
     # the last `systematic` cases are single deviations from well-formed skeletons (every key x every value class)
-    systematic = 1751
+    systematic = 1839
     count = (1000 if q else 12000) + systematic
     events = []
     start = 0
